@@ -2,6 +2,7 @@ package isobmff
 
 import (
 	"github.com/evanoberholster/imagemeta/meta"
+	"github.com/evanoberholster/imagemeta/verifhook"
 	"github.com/pkg/errors"
 )
 
@@ -30,10 +31,13 @@ func (r *Reader) readUUIDBox(b *box) error {
 	switch uuid {
 	case cr3XPacketUUID:
 		if r.XMPReader != nil {
+			verifhook.T("bmff", "cb>", 2, int64(b.remain), 0)
 			if err = r.XMPReader(b); err != nil {
+				verifhook.T("bmff", "cb<", 2, int64(b.remain))
 				b.close()
 				return err
 			}
+			verifhook.T("bmff", "cb<", 2, int64(b.remain))
 		}
 	case cr3MetaBoxUUID:
 		if _, err = readCrxMoovBox(b, r.ExifReader); err != nil {
